@@ -246,13 +246,14 @@ package cbor
 
 // wellFormedEntry(m): both staging buffers of a map entry have been written
 // and never read, so Bytes() is everything that was written.
-//@ def entryFresh(m *MapEntryEncoder) bool = m != nil && spos(m.keyBuf) == 0 && send(m.keyBuf) == accepted(m.keyBuf) && spos(m.valueBuf) == 0 && send(m.valueBuf) == accepted(m.valueBuf)
+//@ def entryFresh(m *MapEntryEncoder) bool = m != nil && spos(m.keyBuf) == 0 && send(m.keyBuf) == accepted(m.keyBuf) && send(m.keyBuf) > 0 && spos(m.valueBuf) == 0 && send(m.valueBuf) == accepted(m.valueBuf)
 
 //@ func (*MapEntryEncoder).KeyBytes
 //@   props C11
 //@   pure
 //@   requires spos(e.keyBuf) == 0 && send(e.keyBuf) == accepted(e.keyBuf)
 //@   ensures bytes(result) == content(e.keyBuf)
+//@   ensures send(e.keyBuf) > 0 ==> result != nil
 
 // The comparison used for sorting: bytewise order of the encoded keys.
 //@ func (*Encoder).EncodeMap$1
@@ -266,14 +267,18 @@ package cbor
 //@   props C11 C19 C04
 //@   requires e.w != nil && !failed(e.w)
 //@   requires forall k int :: 0 <= k && k < len(mes) ==> entryFresh(mes[k])
+//@   requires forall a int, b int :: {mes[a], mes[b]} 0 <= a && a < b && b < len(mes) ==> mes[a] != mes[b]
+//@   requires forall k int :: 0 <= k && k < len(mes) ==> ref(e.w) != ref(mes[k].keyBuf) && ref(e.w) != ref(mes[k].valueBuf) && ref(under(e.w)) != ref(mes[k].keyBuf) && ref(under(e.w)) != ref(mes[k].valueBuf)
 //@   ensures[write-failure-surfaces] failed(e.w) ==> result != nil
 //@   ensures[skew] accepted(e.w) - wrapped(e.w) == old(accepted(e.w) - wrapped(e.w))
 //@   ensures accepted(e.w) >= old(accepted(e.w))
 //@   assigns accepted(e.w), failed(e.w), content(e.w), wrapped(e.w), all(spos)
 //@   loop 0:
 //@     invariant e.w != nil && !failed(e.w) && len(entries) == len(mes) && fresh(entries)
-//@     invariant[permutation] forall k int :: 0 <= k && k < len(entries) ==> entries[k] == old(mes[sortperm(k)]) && 0 <= sortperm(k) && sortperm(k) < len(mes)
-//@     invariant[sorted] forall a int, b int :: 0 <= a && a < b && b < len(entries) ==> bytesCompare(content(entries[b].keyBuf), content(entries[a].keyBuf)) >= 0
+//@     invariant[entries-fresh] forall k int :: rangeindex < k && k < len(entries) ==> entryFresh(entries[k])
+//@     invariant[distinct] forall a int, b int :: {entries[a], entries[b]} 0 <= a && a < b && b < len(entries) ==> entries[a] != entries[b]
+//@     invariant[no-alias] forall k int :: 0 <= k && k < len(entries) ==> entries[k] != nil && ref(e.w) != ref(entries[k].keyBuf) && ref(e.w) != ref(entries[k].valueBuf) && ref(under(e.w)) != ref(entries[k].keyBuf) && ref(under(e.w)) != ref(entries[k].valueBuf)
+//@     invariant[sorted] forall a int, b int :: {entries[a], entries[b]} 0 <= a && a < b && b < len(entries) ==> bytesCompare(content(entries[b].keyBuf), content(entries[a].keyBuf)) >= 0
 //@     invariant[emitted-strictly-ascending] forall a int :: 0 <= a && a < rangeindex ==> bytesCompare(content(entries[a].keyBuf), content(entries[a + 1].keyBuf)) < 0
 //@     invariant[last-key] rangeindex >= 0 ==> lastKeyBytes != nil && bytes(lastKeyBytes) == content(entries[rangeindex].keyBuf)
 //@     invariant rangeindex < 0 ==> lastKeyBytes == nil
